@@ -65,13 +65,17 @@ def fam_pipeline_stages(st):
                   ("_whisper_decoder", "whisper_decoder_test"), ("_rotary_embedding_models", "test_case_2"), ("_rotary_embedding_models", "partial_rotary_test_case")]
     np.random.seed(ctx.seed % (2 ** 31))
     per_stage = collections.Counter()
-    compared = 0
+    compared = skipped_big = whole_compared = 0
     for mod, fn in names:
         try:
             t = getattr(importlib.import_module("onnxscript.rewriter.models." + mod), fn)()
             model = t.get_onnx_model()
             inputs = {k: np.asarray(v) for k, v in t.get_ort_inputs().items()}
             proto0 = ir.serde.serialize_model(model)
+            # quick tier, very large model (smollm_1 is 670 MB: every onnxruntime session costs seconds): compare after the FUSION
+            # stages and on the final result only; the plain optimisation stages in between are compared in the thorough tier
+            # and, on the small models, in every tier
+            big = ctx.tier == "quick" and proto0.ByteSize() > (64 << 20)
             feed = {k: (st.np_rng.standard_normal(v.shape).astype(v.dtype) if v.dtype.kind == "f" else v) for k, v in inputs.items()}
             base = ort_run(proto0, feed)
         except Exception as e:
@@ -106,6 +110,9 @@ def fam_pipeline_stages(st):
             per_stage[name] += 1
             if any(d == FUSION_DOMAIN and not any(f.domain == d and f.name == o for f in model.functions.values()) for d, o in after_ops):
                 continue          # an intermediate op without a body (SDPA): not executable until it is lowered
+            if big and not (kind in ("Fuse", "Guarded") and "func" in kwd):
+                skipped_big += 1
+                continue
             proto = ir.serde.serialize_model(model)
             try:
                 got = ort_run(proto, {k: v for k, v in feed.items() if k in {i.name for i in proto.graph.input}})
@@ -128,12 +135,24 @@ def fam_pipeline_stages(st):
         st.stat(fam, "fired" if any(counts.values()) else "not_fired")
         # the staged execution IS optimize_for_ort: same fusion counts, same operator multiset
         try:
-            ref = getattr(importlib.import_module("onnxscript.rewriter.models." + mod), fn)().get_onnx_model()
+            ref = ir.serde.deserialize_model(proto0)          # the builder's model again (round trip of the untouched proto)
             _, ref_counts = core.optimize_for_ort(ref)
             if {k: v for k, v in ref_counts.items() if v} != {k: v for k, v in counts.items() if v} or \
                     collections.Counter((n.domain, n.op_type) for n in ref.graph) != collections.Counter((n.domain, n.op_type) for n in model.graph):
                 ctx.tie_broken("correspondence", f"{fam}:staged-vs-optimize_for_ort", f"{mod}.{fn}: staged counts {counts} vs {ref_counts}")
         except Exception as e:
             ctx.tie_broken("correspondence", f"{fam}:staged-vs-optimize_for_ort", f"{mod}.{fn}: {e!r}")
-    ctx.cover(pipeline_stage_names=[n for _, n, _ in stages], pipeline_stages_that_changed_a_model=dict(per_stage), pipeline_stage_comparisons=compared)
+            continue
+        # the property for optimize_for_ort as a whole, on the model it returned
+        try:
+            rp = ir.serde.serialize_model(ref)
+            got = ort_run(rp, {k: v for k, v in feed.items() if k in {i.name for i in rp.graph.input}})
+            ok0, why0 = close(base, got, slack=10.0)
+            whole_compared += 1
+            if not ok0:
+                ctx.violation(f"C19:pipeline:repo-model:{fn}:outputs-differ", f"{mod}.{fn}: optimize_for_ort: {why0} (fusions {ref_counts})", {"model": f"{mod}.{fn}", "counts": {k: v for k, v in ref_counts.items() if v}})
+        except Exception as e:
+            ctx.violation(f"C19:pipeline:repo-model:{fn}:outputs-differ", f"{mod}.{fn}: model returned by optimize_for_ort fails in onnxruntime: {str(e)[:200]}", {"model": f"{mod}.{fn}"})
+    ctx.cover(pipeline_stage_names=[n for _, n, _ in stages], pipeline_stages_that_changed_a_model=dict(per_stage), pipeline_stage_comparisons=compared,
+              pipeline_whole_result_comparisons=whole_compared, pipeline_plain_stage_comparisons_left_to_thorough_tier_on_the_670MB_model=skipped_big)
     ctx.obligation(f"pipeline: {len(stages)} stages read from _core.py executed one by one on the repo's models, {compared} per-stage onnxruntime comparisons", compared >= 4)
